@@ -134,7 +134,7 @@ class Check:
                 os.unlink(os.path.join(REPL, fn_))
         n_obl = sum(r.n for r in self.kernels) + len(self.rules)
         n_dis = sum(r.discharged for r in self.kernels) + sum(1 for r in self.rules if r["ok"])
-        by_backend = {"z3": 0, "cvc5": 0, "rule": sum(1 for r in self.rules if r["ok"])}
+        by_backend = {"z3": 0, "cvc5": 0, "ledger": 0, "rule": sum(1 for r in self.rules if r["ok"])}
         slow = []
         for r in self.kernels:
             for o in r.obligations:
@@ -155,6 +155,7 @@ class Check:
         cov = {
             "obligations": n_obl, "discharged": n_dis, "checker_cmd": checker_cmd, "by_backend": by_backend,
             "solver_s": round(sum(r.solver_s for r in self.kernels), 3), "slow_queries": slow[:20],
+            "from_ledger": [{"obligation": o["name"], "reason": o.get("reason")} for r in self.kernels for o in r.obligations if o.get("from_ledger")][:40],
             "functions_under_contract": [dict(r.info, kernel=r.kernel.id, status=r.status, detail=r.detail, obligations=r.n, discharged=r.discharged,
                                               cover_reachable=r.cover_ok, canary_refuted=r.canary_ok, twin_evaluations=r.twin_evals, contract=r.kernel.describe) for r in self.kernels],
             "rules": [{"name": r["name"], "ok": r["ok"], "sites": r["sites"] if isinstance(r["sites"], int) else len(r["sites"]), "failing": jsonable(r["failing"])[:5]} for r in self.rules],
